@@ -1,6 +1,7 @@
 import Model.Broker
 import Proofs.BrokerProc
 import Proofs.BrokerSetup
+import Proofs.BrokerB5Will
 /-
   Props/C12.lean — property C12: the will is published exactly once iff an accepted client ends
   without DISCONNECT.  In the model every way a connection can end goes through `BState.kill`
@@ -431,5 +432,194 @@ example : (sUp.conn? 0).map (·.will) = some (some w0) := rfl
 
 /-- `closed_stays_closed` is not vacuous: `sZombie` has a closed connection -/
 example : ∃ x, sZombie.conn? 0 = some x ∧ x.alive = false := ⟨_, rfl, rfl⟩
+
+/-! ### global form: the will is published exactly once iff accepted and no DISCONNECT, over every history
+
+  The backend sees `Publish(c, m)` for two reasons: the processor forwards a PUBLISH / PUBREL of the peer
+  (`publishThen`), or `cleanup` publishes the will.  A client may publish an ordinary message equal to
+  its will, so counting `.publish c w` events would count the wrong thing.  The model is therefore
+  instrumented (Proofs/BrokerB5Ghost.lean): `BrokerB5.stimG` / `observeG` are `stim` / `observe` — text
+  copied — that additionally return, with every successor state, the backend calls made on the way,
+  each TAGGED with its origin (`BrokerB5.Origin.processor` | `.cleanup`); `cleanup` is the only caller
+  of `backendPublish` with the will.  `BrokerB5.RunW cfg s log`: `s` is reached from the empty broker by
+  steps of the instrumented model, connection identifiers never reused (the assumption of C14
+  `terminate_once`), `log` = all tagged backend calls ever made.
+
+  The instrumentation is validated by `ghost_erase_stim` / `ghost_erase_observe` (forgetting the ghost
+  output gives exactly the model: same successors, same `unsupported`) and `ghost_log_is_backend_log` /
+  `every_history_instrumented` (the tagged log, tags forgotten, is B4's log of everything ever appended
+  to `bevents`, for exactly the histories of the model).
+
+  The counting definition: `BrokerB5.cwills log c` (below, `cleanup_wills_def`) is the list of messages
+  in cleanup-tagged `Publish` calls of connection `c`. -/
+
+/-- the counting definition, spelled out -/
+theorem cleanup_wills_def (log : List BrokerB5.GEvent) (c : ConnId) :
+    BrokerB5.cwills log c =
+      log.filterMap (fun e =>
+        match e with
+        | ⟨.cleanup, .publish c' m⟩ => if c' = c then some m else none
+        | _ => none) := rfl
+
+/-- "closed and cleaned up" and "what `cleanup` has to publish", spelled out -/
+theorem cleaned_def (o : Option BConn) :
+    BrokerB5.isCl o = (match o with | some x => !x.alive && !x.zombie | none => false) := rfl
+theorem willOf_def (o : Option BConn) :
+    BrokerB5.willOf o = (match o with
+      | some x => (match x.phase, x.will with | .connected, some w => [w] | _, _ => [])
+      | none => []) := rfl
+
+/-- forgetting the ghost output of the instrumented model gives the model -/
+theorem ghost_erase_stim (s : BState) (st : Stim) : (BrokerB5.stimG s st).erase = stim s st :=
+  BrokerB5.stimG_erase s st
+theorem ghost_erase_observe (s : BState) (o : Obs) : (BrokerB5.observeG s o).map (·.1) = observe s o :=
+  BrokerB5.observeG_erase s o
+
+/-- the tagged log, tags forgotten, is the log of all backend calls ever appended to `bevents` (B4's
+    `RunG`, C14), so `RunW` histories are histories of the model: the state is reachable … -/
+theorem ghost_log_is_backend_log {cfg : Cfg} {s : BState} {log : List BrokerB5.GEvent} (h : BrokerB5.RunW cfg s log) :
+    BrokerB4.RunG cfg s (log.map (·.ev)) ∧ Reachable cfg s :=
+  ⟨(BrokerB5.runW_inv h).1, h.reachable⟩
+
+/-- … and every history of the model is one of the instrumented model, same backend calls, same order -/
+theorem every_history_instrumented {cfg : Cfg} {s : BState} {l : List BEvent} (h : BrokerB4.RunG cfg s l) :
+    ∃ log, BrokerB5.RunW cfg s log ∧ log.map (·.ev) = l := BrokerB5.runW_of_runG h
+
+/-- **C12, trace form.** Over every history and for every connection `c`: the messages `cleanup` has
+    published on behalf of `c` are exactly
+      * `[w]` — once — if `c` is closed, its `cleanup` has run (it is no zombie), it had been accepted and
+        did not DISCONNECT (phase `connected`; DISCONNECT sets `disconnected`, a connection never
+        accepted stays `connecting`) and `w` is the will stored from its CONNECT;
+      * nothing in every other case: still alive, `cleanup` still pending, never accepted, no will, or
+        ended by DISCONNECT. -/
+theorem will_exactly_once {cfg : Cfg} {s : BState} {log : List BrokerB5.GEvent} (h : BrokerB5.RunW cfg s log)
+    (c : ConnId) :
+    BrokerB5.cwills log c =
+      (match s.conn? c with
+       | some x =>
+         if x.alive = false ∧ x.zombie = false then
+           (match x.phase, x.will with
+            | .connected, some w => [w]
+            | _, _ => [])
+         else []
+       | none => []) := by
+  rw [BrokerB5.will_exactly_once h c]
+  cases s.conn? c with
+  | none => rfl
+  | some x =>
+    cases ha : x.alive <;> cases hz : x.zombie <;> cases hp : x.phase <;> cases hw : x.will <;>
+      simp [BrokerB5.isCl, BrokerB5.willOf, ha, hz, hp, hw]
+
+/-- at all times at most one will has been published for a connection -/
+theorem will_at_most_once {cfg : Cfg} {s : BState} {log : List BrokerB5.GEvent} (h : BrokerB5.RunW cfg s log)
+    (c : ConnId) : (BrokerB5.cwills log c).length ≤ 1 := BrokerB5.will_at_most_once h c
+
+/-- exactly once, with exactly the stored message, iff closed, cleaned up, accepted, not disconnected -/
+theorem will_once_iff {cfg : Cfg} {s : BState} {log : List BrokerB5.GEvent} (h : BrokerB5.RunW cfg s log)
+    (c : ConnId) (w : Message) :
+    BrokerB5.cwills log c = [w] ↔
+      ∃ x, s.conn? c = some x ∧ x.alive = false ∧ x.zombie = false ∧ x.phase = .connected ∧ x.will = some w := by
+  rw [will_exactly_once h c]
+  cases hc : s.conn? c with
+  | none => simp
+  | some x =>
+    simp only [Option.some.injEq, exists_eq_left']
+    by_cases hcl : x.alive = false ∧ x.zombie = false
+    · rw [if_pos hcl]
+      cases hp : x.phase <;> cases hw : x.will <;> simp [hcl.1, hcl.2]
+    · rw [if_neg hcl]
+      constructor
+      · intro h0; cases h0
+      · rintro ⟨h1, h2, _⟩; exact absurd ⟨h1, h2⟩ hcl
+
+/-- never: not accepted (phase `connecting`), or DISCONNECT (phase `disconnected`), or no will stored -/
+theorem will_never {cfg : Cfg} {s : BState} {log : List BrokerB5.GEvent} (h : BrokerB5.RunW cfg s log)
+    (c : ConnId) (x : BConn) (hx : s.conn? c = some x)
+    (hno : x.phase = .connecting ∨ x.phase = .disconnected ∨ x.will = none) : BrokerB5.cwills log c = [] := by
+  rw [will_exactly_once h c, hx]
+  simp only []
+  split
+  · rcases hno with hp | hp | hw
+    · rw [hp]
+    · rw [hp]
+    · rw [hw]; cases x.phase <;> rfl
+  · rfl
+
+/-- not yet: the connection is alive, or closed with its `cleanup` still to come (zombie) -/
+theorem will_not_before_cleanup {cfg : Cfg} {s : BState} {log : List BrokerB5.GEvent} (h : BrokerB5.RunW cfg s log)
+    (c : ConnId) (x : BConn) (hx : s.conn? c = some x) (hp : x.alive = true ∨ x.zombie = true) :
+    BrokerB5.cwills log c = [] := by
+  rw [will_exactly_once h c, hx]
+  simp only []
+  rw [if_neg]
+  rintro ⟨h1, h2⟩
+  rcases hp with hp | hp
+  · rw [h1] at hp; cases hp
+  · rw [h2] at hp; cases hp
+
+
+/-- the count form: the number of wills published for `c` so far is 1 if `c` is closed, cleaned up,
+    was accepted, did not DISCONNECT and had a will — 0 otherwise -/
+theorem will_count {cfg : Cfg} {s : BState} {log : List BrokerB5.GEvent} (h : BrokerB5.RunW cfg s log) (c : ConnId) :
+    (BrokerB5.cwills log c).length =
+      (match s.conn? c with
+       | some x =>
+         if x.alive = false ∧ x.zombie = false ∧ x.phase = .connected ∧ x.will.isSome = true then 1 else 0
+       | none => 0) := by
+  rw [will_exactly_once h c]
+  cases s.conn? c with
+  | none => rfl
+  | some x =>
+    cases ha : x.alive <;> cases hz : x.zombie <;> cases hp : x.phase <;> cases hw : x.will <;> simp [ha, hz, hp, hw]
+
+/-! non-vacuity of the trace form: a history in which the client also publishes an ordinary message
+    equal to its will — the backend sees `Publish(0, wq)` twice, `cleanup` published it once -/
+
+/-- first successor with its ghost output (the runs below are deterministic) -/
+def runG1 (s : BState) (st : Stim) : BState × List BrokerB5.GEvent :=
+  match BrokerB5.stimG s st with
+  | .ok (p :: _) => p
+  | _ => (s, [])
+
+def wq : Message := ⟨[116], [1], 0, false⟩
+/-- connection 0, CONNECT (will `wq`) accepted -/
+def tUp : BState := (runG1 sConn (.send 0 (.connect [97] 0 [] [] true (some wq) 4))).1
+/-- … publishes the ordinary message `wq` -/
+def tPub : BState := (runG1 tUp (.send 0 (.publish wq false 0))).1
+/-- … and drops -/
+def tEnd : BState := (runG1 tPub (.drop 0)).1
+
+def tLog : List BrokerB5.GEvent :=
+  [⟨.processor, .setup 0 false⟩, ⟨.processor, .publish 0 wq⟩, ⟨.cleanup, .publish 0 wq⟩, ⟨.cleanup, .terminate 0⟩]
+
+theorem tEnd_run : BrokerB5.RunW {} tEnd tLog := by
+  have r0 : BrokerB5.RunW {} ({ cfg := {} } : BState) [] := .init
+  have r1 := BrokerB5.RunW.step r0 (BrokerB5.StepG.stim (s' := sConn) (g := []) (.conn 0) (fun _ _ => rfl) _ rfl
+    (List.mem_singleton.2 rfl))
+  have r2 := BrokerB5.RunW.step r1 (BrokerB5.StepG.stim (s' := tUp) (g := [⟨.processor, .setup 0 false⟩])
+    (.send 0 (.connect [97] 0 [] [] true (some wq) 4)) (fun _ h => by cases h) _ rfl (List.mem_singleton.2 rfl))
+  have r3 := BrokerB5.RunW.step r2 (BrokerB5.StepG.stim (s' := tPub) (g := [⟨.processor, .publish 0 wq⟩])
+    (.send 0 (.publish wq false 0)) (fun _ h => by cases h) _ rfl (List.mem_singleton.2 rfl))
+  exact BrokerB5.RunW.step r3 (BrokerB5.StepG.stim (s' := tEnd)
+    (g := [⟨.cleanup, .publish 0 wq⟩, ⟨.cleanup, .terminate 0⟩]) (.drop 0) (fun _ h => by cases h) _ rfl
+    (List.mem_singleton.2 rfl))
+
+/-- the backend saw `Publish(0, wq)` twice, `cleanup` published the will once; the connection is closed,
+    cleaned up, in phase `connected` with the will `wq` stored: the right-hand side of `will_once_iff` -/
+example : (tLog.map (·.ev)).count (.publish 0 wq) = 2 ∧ BrokerB5.cwills tLog 0 = [wq] ∧
+    ∃ x, tEnd.conn? 0 = some x ∧ x.alive = false ∧ x.zombie = false ∧ x.phase = .connected ∧ x.will = some wq :=
+  ⟨by decide, by decide, _, rfl, rfl, rfl, rfl, rfl⟩
+
+/-- after DISCONNECT instead of the drop: nothing is published for connection 0 -/
+example : ∃ t log, BrokerB5.RunW {} t log ∧ BrokerB5.cwills log 0 = [] ∧
+    ∃ x, t.conn? 0 = some x ∧ x.alive = false ∧ x.phase = .disconnected := by
+  have r0 : BrokerB5.RunW {} ({ cfg := {} } : BState) [] := .init
+  have r1 := BrokerB5.RunW.step r0 (BrokerB5.StepG.stim (s' := sConn) (g := []) (.conn 0) (fun _ _ => rfl) _ rfl
+    (List.mem_singleton.2 rfl))
+  have r2 := BrokerB5.RunW.step r1 (BrokerB5.StepG.stim (s' := tUp) (g := [⟨.processor, .setup 0 false⟩])
+    (.send 0 (.connect [97] 0 [] [] true (some wq) 4)) (fun _ h => by cases h) _ rfl (List.mem_singleton.2 rfl))
+  have r3 := BrokerB5.RunW.step r2 (BrokerB5.StepG.stim (s' := (runG1 tUp (.send 0 .disconnect)).1)
+    (g := [⟨.cleanup, .terminate 0⟩]) (.send 0 .disconnect) (fun _ h => by cases h) _ rfl (List.mem_singleton.2 rfl))
+  exact ⟨_, _, r3, by decide, _, rfl, rfl, rfl⟩
 
 end C12
